@@ -156,6 +156,24 @@ func contents(n int, allowNUL bool) (out [][]byte, names []string) {
 			}
 			return 'x'
 		})
+		add("nul-last", func(i int) byte {
+			if i == n-1 {
+				return 0
+			}
+			return 'y'
+		})
+		add("two-nuls-last", func(i int) byte {
+			if i >= n-2 {
+				return 0
+			}
+			return 'z'
+		})
+		add("utf16-text-with-its-terminator", func(i int) byte {
+			if i%2 == 1 || i >= n-2 {
+				return 0
+			}
+			return byte('a' + i/2%26)
+		})
 	}
 	return
 }
